@@ -214,7 +214,7 @@ META["C20"] = {
 
 META["C16"] = {
     "title": "Ending a stream early retires the producers that feed it",
-    "rule": "cases = (producer in interval(1|5 ms) / from_iter over a counting iterator capped at 1500 pulls / from_stream over an endless self-waking scripted stream, position main or secondary/notifier input of skip_until / take_until / sample / buffer / with_latest_from / merge / zip / combine_latest (hot main input emitting every 3 ms), or inner observable of flat_map / concat_map / merge_all(2) (hot outer emitting exactly one item, so that exactly one inner producer exists when the cutter fires), 0..n intermediate operators, cutter in take / first / first_or / element_at / take_while(_inclusive) / contains / all, scheduler form, task order). A sweep puts every catalogue operator (single-input, two-input with a cold other, flattening, scheduler-using, finalize, share) once in the middle position for every producer; a second sweep (counter ended_from_the_side_cases) ends the stream from the side - merge with of(1) or timer(2ms), take_until(of(1)) or take_until(timer(2ms)) - below an operator that forwards nothing at that point (skip_until(never), filter(false), filter_map(false), skip_while(true), skip(100000), ignore_elements, last, take_last, reduce, count, collect, skip_last(100000), sample(never), buffer(never)) for every producer and both scheduler forms; the rest are seeded random chains of depth <= 2 quick / <= 4 thorough. Every case runs on the virtual clock to a 200 ms horizon. Thread part (scenario interval+workers): interval(1ms).take(k) ticking on 1-2 worker threads, ended by take or by an unsubscribing thread; after everything ran until idle no scheduled task and no virtual timer may be left (run-until-idle terminates). A case counts (non-trivial) only if the cutter actually fired; distinct = hash(case).",
+    "rule": "cases = (producer in interval(1|5 ms) / from_iter over a counting iterator capped at 1500 pulls / from_stream over an endless self-waking scripted stream, position main or secondary/notifier input of skip_until / take_until / sample / buffer / with_latest_from / merge / zip / combine_latest (hot main input emitting every 3 ms), or inner observable of flat_map / concat_map / merge_all(2) (hot outer emitting exactly one item, so that exactly one inner producer exists when the cutter fires), 0..n intermediate operators, cutter in take / first / first_or / element_at / take_while(_inclusive) / contains / all, scheduler form, task order). A sweep puts every catalogue operator (single-input, two-input with a cold other, flattening, scheduler-using, finalize, share) once in the middle position for every producer; a second sweep (counter ended_from_the_side_cases) ends the stream from the side - merge with of(1) or timer(2ms), take_until(of(1)) or take_until(timer(2ms)) - below an operator that forwards nothing at that point (skip_until(never), filter(false), filter_map(false), skip_while(true), skip(100000), ignore_elements, last, take_last, reduce, count, collect, skip_last(100000), sample(never), buffer(never), debounce(50ms > the producer's period)) for every producer and both scheduler forms; the rest are seeded random chains of depth <= 2 quick / <= 4 thorough. Every case runs on the virtual clock to a 200 ms horizon. Thread part (scenario interval+workers): interval(1ms).take(k) ticking on 1-2 worker threads, ended by take or by an unsubscribing thread; after everything ran until idle no scheduled task and no virtual timer may be left (run-until-idle terminates). A case counts (non-trivial) only if the cutter actually fired; distinct = hash(case).",
     "assumptions": COMMON_ASSUME + [
         "retired means, measured after the subscriber saw the cutter's terminal: no tick of the producer later than one period after it, and no pending timer / live task at the horizon (interval); at most one more pull (from_iter); at most two more polls and no live task (from_stream)",
         "take(0) is not used as a cutter",
@@ -260,14 +260,14 @@ META["C11"] = {
     "title": "publish/connect and share subscribe the source once and multicast",
     "rule": "cases = (share | share_threads | publish::<Subject>()+fork()/connect(), source hot Subject behind a tap counter | deferred cold synchronous source behind a subscription counter | interval(5ms) on the virtual clock behind a tap counter, history of length <= 10 quick / <= 18 thorough over subscribe(k) / unsubscribe(k) / source-emit / source-complete / connect / one-period tick, k < 3, one subscription per slot). Checked in lock step against a multicast model: who was subscribed at each emission receives it once, in order; the source is not subscribed before connect(); it is subscribed at most once; after the last subscriber's unsubscribe() returned the tap counter no longer moves on later source events (hot) or one period later (interval). Non-trivial: at least two subscribers overlapped and one left before the source ended; distinct = hash(case). Thread part (scenario share_threads[multi]): 2-3 probes subscribed to clones of one hot.share_threads(), 2-3 threads each running up to 4 of next / unsubscribe(k) / subscribe (never re-joining after the count reached zero) plus an occasional terminal, scheduled at the hooked lock points (random, PCT and preemption-bounded systematic schedules) and then free-running on OS threads with seeded jitter; oracle over call/return stamps: a subscriber whose subscribe() returned before next(v) was called and whose unsubscribe() was not called before it returned receives v exactly once, all subscribers agree on one order, nothing begins on a probe after its unsubscribe() returned, every call returns.",
     "assumptions": COMMON_ASSUME + [
-        "re-joining a share after its subscriber count dropped to zero is unspecified and not generated",
+        "whether a share re-connects when somebody joins after its subscriber count dropped to zero is unspecified; such re-joins are generated for hot sources only (counter histories_with_a_rejoin_after_everybody_left) and the re-joined subscriber is owed exactly the emissions the shared source is seen to make (upstream tap), nothing is demanded about terminals after a re-join; thread scenarios never re-join",
         "a cold synchronous source emits during the connecting subscription: only subscribers present at that moment receive those items",
     ],
     "technique": "runtime monitoring: recording probes, upstream tap counter and source-subscription counter on the real share/publish operators under random subscribe/unsubscribe/emit histories, compared with a multicast model; for share_threads additionally multi-threaded histories under a controlled scheduler at hooked lock points and free-running threads, judged by an interval (call/return) oracle",
     "level_text": "Exploration over sampled histories for three source kinds and three multicast spellings, plus sampled and preemption-bounded thread schedules of a multi-subscriber share_threads.",
     "level_note": "Trusted: multicast model in harness/src/props/c11.rs, virtual clock for the interval source.",
     "design_ref": "DESIGN.md §5 C11",
-    "require": {"quick": {"modes_covered": 8, "histories_where_the_last_subscriber_left": 5000, "thread_schedules": 8000, "free_parallel_runs": 1500}, "thorough": {"modes_covered": 8, "thread_schedules": 300000, "free_parallel_runs": 100000}},
+    "require": {"quick": {"modes_covered": 8, "histories_where_the_last_subscriber_left": 5000, "thread_schedules": 8000, "free_parallel_runs": 1500, "histories_with_a_rejoin_after_everybody_left": 2000}, "thorough": {"modes_covered": 8, "thread_schedules": 300000, "free_parallel_runs": 100000, "histories_with_a_rejoin_after_everybody_left": 50000}},
 }
 
 META["C13"] = {
@@ -285,7 +285,7 @@ META["C13"] = {
 
 META["C17"] = {
     "title": "is_closed() is sound and composites tear down late additions",
-    "rule": "two batteries. (a) composite histories: random histories of length <= 8 quick / <= 13 thorough over append / append-nested-composite / clone / unsubscribe / retain / sample on MultiSubscription and MultiSubscriptionThreads with tracked children: every child appended before unsubscribe() is unsubscribed exactly once, every remaining clone reports closed afterwards, a child appended afterwards has been unsubscribed by the time append returns. (b) random pipelines over the whole catalogue (so that unit, Subscriber, pair, composite, task-handle, ref-count, finalizer and boxed subscriptions all occur), is_closed() of the returned subscription sampled before every explorer step: once it returned true no notification may be delivered through that subscription and it may never return false again. (c) a direct battery on ZipSubscription (all four closed/open combinations of its halves), SubscriptionGuard, MutRc<Option<S>> handle clones and BoxSubscription with counting children. (d) MultiSubscriptionThreads under the lock-point scheduler: unsubscribe() on one thread, 1-3 append() calls on a second, is_closed() samples on a third, over 0-2 children appended up front; afterwards the composite reports closed, so every child must have been unsubscribed exactly once, and is_closed() may not return to false once the composite holds an open child. (e) unsubscribe() racing the worker thread that runs the scheduled task of observe_on_threads / delay_threads / subscribe_on (task handles): nothing may begin on the probe after unsubscribe() returned. Histories in (a) also contain children whose own unsubscribe() appends one more child to the composite (an append in the middle of the teardown, counter histories_with_an_append_during_teardown): it must not be left running. subscription_types_covered lists every subscription type that occurred. Non-trivial: (a) an append fell after the unsubscribe; (b) is_closed() was sampled both false and true in the run; distinct = hash(case).",
+    "rule": "two batteries. (a) composite histories: random histories of length <= 8 quick / <= 13 thorough over append / append-nested-composite / clone / unsubscribe / retain / sample on MultiSubscription and MultiSubscriptionThreads with tracked children: every child appended before unsubscribe() is unsubscribed exactly once, every remaining clone reports closed afterwards, a child appended afterwards has been unsubscribed by the time append returns. (b) random pipelines over the whole catalogue (so that unit, Subscriber, pair, composite, task-handle, ref-count, finalizer and boxed subscriptions all occur), is_closed() of the returned subscription sampled before every explorer step: once it returned true no notification may be delivered through that subscription and it may never return false again. (c) a direct battery on ZipSubscription (all four closed/open combinations of its halves), SubscriptionGuard, MutRc<Option<S>> handle clones and BoxSubscription with counting children. (d) MultiSubscriptionThreads under the lock-point scheduler: unsubscribe() on one thread, 1-3 append() calls on a second, is_closed() samples on a third, over 0-2 children appended up front; afterwards the composite reports closed, so every child must have been unsubscribed exactly once, and is_closed() may not return to false once the composite holds an open child. (f) a thread asking is_closed() six times on the subscription of hot.observe_on_threads / delay_threads(0) / debounce / buffer_with_time while the source thread emits 0-2 items and completes or fails and a worker thread runs the scheduled tasks (counter is_closed_sampling_races): after a sample returned true nothing may begin on the probe and no later sample may be false. (e) unsubscribe() racing the worker thread that runs the scheduled task of observe_on_threads / delay_threads / subscribe_on (task handles): nothing may begin on the probe after unsubscribe() returned. Histories in (a) also contain children whose own unsubscribe() appends one more child to the composite (an append in the middle of the teardown, counter histories_with_an_append_during_teardown): it must not be left running. subscription_types_covered lists every subscription type that occurred. Non-trivial: (a) an append fell after the unsubscribe; (b) is_closed() was sampled both false and true in the run; distinct = hash(case).",
     "assumptions": COMMON_ASSUME + [
         "`false` is always acceptable (the property is one-directional)",
         "a live composite without children answers is_closed() == true (vacuously: nothing can be delivered through it) until its first child is appended; this is how delay/observe_on report closed after their last task, and it is not treated as 'returned true, later false'",
@@ -294,7 +294,7 @@ META["C17"] = {
     "level_text": "Exploration over sampled pipelines/schedules and composite histories.",
     "level_note": "Trusted: probe, tracked child subscription, explorer.",
     "design_ref": "DESIGN.md §5 C17",
-    "require": {"quick": {"appends_after_unsubscribe": 3000, "runs_where_is_closed_returned_true": 20000, "subscription_types_covered": 13, "histories_with_an_append_during_teardown": 5000, "composite_thread_races": 4000, "thread_schedules": 4000}, "thorough": {"subscription_types_covered": 13, "composite_thread_races": 200000, "thread_schedules": 150000}},
+    "require": {"quick": {"appends_after_unsubscribe": 3000, "runs_where_is_closed_returned_true": 20000, "subscription_types_covered": 13, "histories_with_an_append_during_teardown": 5000, "composite_thread_races": 4000, "thread_schedules": 4000, "is_closed_sampling_races": 4000}, "thorough": {"subscription_types_covered": 13, "composite_thread_races": 200000, "thread_schedules": 150000, "is_closed_sampling_races": 150000}},
 }
 
 META["C18"] = {
